@@ -36,3 +36,16 @@ Theorem C17_nonvacuous :
   render (doc_attr (Some (lit "  say ""hi"" \ */ {} "))) = lit "#[doc = ""say \""hi\"" \\ */ {}"" ]".
 Proof. vm_compute. split; reflexivity. Qed.
 Print Assumptions C17_nonvacuous.
+
+(* `a schema's description documents its type` is FALSE for schemas that become a type alias or a tuple struct (open
+   finding): whatever documentation the record carries, the emitted item is the same *)
+Theorem C17_alias_doc_refuted : forall name ty opt d1 d2 fl,
+  make_typealias name {| f_ty := ty; f_optional := opt; f_doc := d1; f_flatten := fl |} =
+  make_typealias name {| f_ty := ty; f_optional := opt; f_doc := d2; f_flatten := fl |}.
+Proof. reflexivity. Qed.
+Print Assumptions C17_alias_doc_refuted.
+
+Theorem C17_newtype_doc_refuted : forall fuel h cfg name fields d1 d2,
+  make_item fuel h cfg (RNewType name fields d1) = make_item fuel h cfg (RNewType name fields d2).
+Proof. reflexivity. Qed.
+Print Assumptions C17_newtype_doc_refuted.
